@@ -14,7 +14,7 @@
 (* time (unspecified: `order` is chosen nondeterministically) and the      *)
 (* first rejection ends the consultation.                                  *)
 (***************************************************************************)
-EXTENDS Integers, Sequences, FiniteSets, FiniteSetsExt, TLC
+EXTENDS Integers, Sequences, FiniteSets, FiniteSetsExt, TLC, TokenBucket
 
 NoVal == "<none>"
 
@@ -44,28 +44,28 @@ Cap(r, v) == Q(r, v) + r.burst
 D(r) == r.dur * 1000
 
 \* one rule deciding one request of n tokens for value v at time t, bucket state b (or "new")
-\* result: [ok, b]
-Decide(r, v, n, t, seen, b) ==
-    LET q == Q(r, v)
-        cap == Cap(r, v)
-    IN  IF q = 0 \/ n > cap THEN [ok |-> FALSE, b |-> b, touched |-> FALSE]
-        ELSE IF ~seen
-        THEN [ok |-> TRUE, touched |-> TRUE,
-              b |-> [tokens |-> cap - n, last |-> t, first |-> t, admitted |-> n]]
-        ELSE LET gap == t - b.last IN
-             IF gap > D(r)
-             THEN LET add == (gap * q) \div D(r)
-                      new == IF add + b.tokens > cap THEN cap - n ELSE add + b.tokens - n
-                  IN  IF new < 0 THEN [ok |-> FALSE, b |-> b, touched |-> FALSE]
-                      ELSE [ok |-> TRUE, touched |-> TRUE,
-                            b |-> [b EXCEPT !.tokens = new, !.last = t, !.admitted = @ + n]]
-             ELSE IF b.tokens >= n
-                  THEN [ok |-> TRUE, touched |-> TRUE, b |-> [b EXCEPT !.tokens = @ - n, !.admitted = @ + n]]
-                  ELSE [ok |-> FALSE, b |-> b, touched |-> FALSE]
+\* result: [ok, b, touched]; the arithmetic is TokenBucket!DecideQ (also proved inductively, TokenBucketInd)
+Decide(r, v, n, t, seen, b) == DecideQ(Q(r, v), Cap(r, v), D(r), n, t, seen, b)
 
 Args(ev) == IF "args" \in DOMAIN ev THEN ev.args ELSE <<>>
 Att(ev)  == IF "att" \in DOMAIN ev THEN ev.att ELSE <<>>
 OrderOf(res) == IF res \in DOMAIN order THEN order[res] ELSE <<>>
+
+\* The buckets of a rule live in caches of CapOf(r) entries with least-recently-used replacement (the code:
+\* two LRU caches per rule, time and tokens, which sequential traffic touches in the same order).  Every
+\* decision that gets as far as the bucket - admitted or rejected for want of tokens - makes the value the
+\* most recent one; a request rejected because q = 0 or n > q + burst does not touch the caches.  A new
+\* value arriving at a full cache evicts the least recent one, whose next request then finds a fresh, full
+\* bucket.  `used` = rank in the recency order (1 = least recent).  While the number of distinct values
+\* stays within the capacity - the domain of the listed property - nothing is ever evicted.
+CapOf(r) == IF r.cap > 0 THEN r.cap ELSE IF 4000 * r.dur < 20000 THEN 4000 * r.dur ELSE 20000
+Ranked(f) == [x \in DOMAIN f |-> ("used" :> Cardinality({y \in DOMAIN f : f[y].used <= f[x].used})) @@ f[x]]
+Oldest(f) == CHOOSE x \in DOMAIN f : \A y \in DOMAIN f : f[x].used <= f[y].used
+Touch(r, f, v, b) ==
+    LET room == IF v \notin DOMAIN f /\ Cardinality(DOMAIN f) >= CapOf(r)
+                THEN [x \in DOMAIN f \ {Oldest(f)} |-> f[x]] ELSE f
+    IN  Ranked((v :> (("used" :> Cardinality(DOMAIN f) + 2) @@ b)) @@ room)
+Evicted(r, f, v) == IF v \notin DOMAIN f /\ Cardinality(DOMAIN f) >= CapOf(r) THEN {Oldest(f)} ELSE {}
 
 \* consult the rules of the resource in order, starting at position i with buckets `cur`
 RECURSIVE Walk(_, _, _, _)
@@ -75,10 +75,12 @@ Walk(ev, ord, i, cur) ==
              v == Extract(r, Args(ev), Att(ev))
          IN  IF v = NoVal THEN Walk(ev, ord, i + 1, cur)
              ELSE LET seen == v \in DOMAIN cur[r.id]
+                      reaches == ~(Q(r, v) = 0 \/ ev.n > Cap(r, v))
                       d == Decide(r, v, ev.n, ev.t, seen, IF seen THEN cur[r.id][v] ELSE <<>>)
+                      nxt == IF reaches THEN [cur EXCEPT ![r.id] = Touch(r, @, v, d.b)] ELSE cur
                   IN  IF d.ok
-                      THEN Walk(ev, ord, i + 1, [cur EXCEPT ![r.id] = (v :> d.b) @@ @])
-                      ELSE [pass |-> FALSE, rule |-> r.id, bk |-> cur]
+                      THEN Walk(ev, ord, i + 1, nxt)
+                      ELSE [pass |-> FALSE, rule |-> r.id, bk |-> nxt]
 
 Verdict(ev) == Walk(ev, OrderOf(ev.res), 1, bk)
 
